@@ -335,6 +335,7 @@ theorem inv_step {cfg : Config} {s : MState} {live : List Info} (h : Inv cfg.fuz
   | addMod f mp ws => exact inv_addModule h f mp ws
   | remove f => exact inv_remove h f
   | hide f b => exact inv_setHidden h f b
+  | clear => exact inv_new _
 
 theorem inv_run (cfg : Config) (ops : List Op) : Inv cfg.fuzzy (run cfg ops) (specLive cfg ops) := by
   unfold run specLive
